@@ -628,6 +628,47 @@ func c25GenDoc(r *Rand, rich bool) string {
 	return s
 }
 
+// c25GenQuotedDefault: one word with content BEFORE and AFTER a default/alternative expansion whose
+// word is quoted — `a${e:-"b"}c`, `$x${e:-'b'}`, `{a,b}${u-"c"}`, `~/${n:+"$n"}`, chains of them.
+func c25GenQuotedDefault(r *Rand) string {
+	exp := func() string {
+		var v, op string
+		if r.Bool() {
+			v, op = r.Pick([]string{"e", "u", "u", "e", "x"}), r.Pick([]string{":-", "-"})
+		} else {
+			v, op = r.Pick([]string{"n", "x", "x1", "m", "u"}), r.Pick([]string{":+", "+"})
+		}
+		w := r.Pick([]string{`"b"`, `'c'`, `"$n"`, `"$x1"`, `"b"'c'`, `"${n}z"`, `'*'`, `"~"`, `""`, `"b c"`, `"$x"`, `"b"d`, `d"b"`})
+		return "${" + v + op + w + "}"
+	}
+	before := func() string {
+		switch r.Intn(10) {
+		case 0:
+			return ""
+		case 1:
+			return "a"
+		case 2:
+			return r.Pick([]string{"'q'", `"q r"`, `"$n"`})
+		case 3:
+			return "~/"
+		case 4:
+			return r.Pick([]string{"$x", "$n", "$sp", "${x1}"})
+		case 5:
+			return "$((1+2))"
+		case 6:
+			return "{a,b}"
+		case 7:
+			return exp()
+		case 8:
+			return "a" + exp() + "-"
+		default:
+			return r.Pick([]string{"x=", "a.b", "-"})
+		}
+	}
+	after := r.Pick([]string{"", "", "z", "$n", "'q'", exp(), "{1,2}", "-$x"})
+	return before() + exp() + after
+}
+
 var c25UnqText = []string{"a", "b", "word", "x=1", "a.b", "/p/q", "-n", "a:b", "1", "a,b", "@", "%", "+", "^", "]", "a~b"}
 
 func c25GenWords(r *Rand, rich bool) string {
@@ -636,6 +677,10 @@ func c25GenWords(r *Rand, rich bool) string {
 	for w := 0; w < nw; w++ {
 		if w > 0 {
 			sb.WriteString(r.Pick([]string{" ", " ", "  ", "\t", " \t "}))
+		}
+		if r.Chance(14) {
+			sb.WriteString(c25GenQuotedDefault(r))
+			continue
 		}
 		if r.Chance(8) {
 			sb.WriteString(r.Pick([]string{"~", "~/", "~/x", "~/a b"}))
@@ -884,7 +929,49 @@ func c25Excl(cs c25Case, fields bool) string {
 				case '\\':
 					return "param-word-backslash"
 				case '\'', '"':
-					return "param-word-quotes"
+					// The quotes findings (C25-param-word-quotes: kept by bash inside "…"/here-documents;
+					// C25-param-word-quoted-split: quoted text split or an empty quoted string lost when
+					// the expansion is unquoted) need one of: a quoting context, white space or emptiness
+					// in the quoted text.  Everything else is compared.
+					if !fields || inDq {
+						return "param-word-quotes"
+					}
+					q := s[l]
+					end := strings.IndexByte(s[l+1:], q)
+					if end < 0 {
+						return "param-word-quotes"
+					}
+					content := s[l+1 : l+1+end]
+					if content == "" || strings.ContainsAny(content, " \t\n\\`") {
+						return "param-word-quotes"
+					}
+					if q == '"' {
+						// expansions inside the quotes: their values must be non-empty and free of blanks
+						for m := 0; m < len(content); m++ {
+							if content[m] != '$' {
+								continue
+							}
+							n := m + 1
+							if n < len(content) && content[n] == '{' {
+								n++
+							}
+							e := n
+							for e < len(content) && c25NameChar(content[e]) {
+								e++
+							}
+							if e == n {
+								return "param-word-quotes" // $(( )) and the like inside: keep it simple
+							}
+							v := env(content[n:e])
+							if v == "" || strings.ContainsAny(v, " \t\n") {
+								return "param-word-quotes"
+							}
+							if e < len(content) && content[e] != '}' && content[n-1] == '{' {
+								return "param-word-quotes" // an operator inside
+							}
+						}
+					}
+					l += end + 1
 				case '{':
 					depth++
 				case '}':
